@@ -331,7 +331,7 @@ def gen_op(world: W.World, rng: random.Random, fam: str, cap: int) -> dict:
                 return _op("replace", i=i_c, dst=dst(), n=[rng.choice([rng.randint(0, 255), 256, -1, 300])],
                            s=[rng.choice("rgba")])
         # immutability probes on anything but strings
-        c = [i + 1 for i, k in enumerate(kinds) if k != "str" and not custom[i]]
+        c = [i + 1 for i, k in enumerate(kinds) if k in W.INT_FIELDS and not custom[i]]
         if c:
             i = rng.choice(c)
             k = kinds[i - 1]
@@ -538,7 +538,7 @@ def main(rep: Report, replay: dict | None) -> None:
             if any(r["abandoned"] for r in results):
                 rep.notes.append(f"{cfg}: some walks were abandoned (the spec state could not be re-created)")
             if sample_walk is None:
-                sample_walk = next((w for w in walks if len(w) >= 4 and w[0]["fam"] == "pad"), walks[0])
+                sample_walk = max(walks, key=lambda w: len({e["op"]["act"] for e in w[:8]}))
             # canary: a tampered edge must be noticed by the replay
             if all_actions:
                 tam = json.loads(json.dumps(next(w for w in walks if w[0]["op"]["res"] == "ok"
@@ -558,7 +558,9 @@ def main(rep: Report, replay: dict | None) -> None:
         hv, hst, htr = f_hist.result()
         lap("wait_validate_histories")
         cv2, cv = hv.pop(), hv.pop()
-        if cv["verdict"] == "ok" or cv["at"] != 1 or cv2["verdict"] != "equal-objects-hash-differently":
+        src_ok = hv[recorded.index(src)]["verdict"] == "ok"   # (a broken library fails the original too)
+        if cv["verdict"] == "ok" or cv["at"] != 1 or cv2["verdict"] == "ok" or cv2["at"] != 1 or \
+                (src_ok and cv2["verdict"] != "equal-objects-hash-differently"):
             raise tlc.MachineryError(f"x01: Trace_ValueTypes accepted a corrupted trace: {cv} {cv2}")
         rep.extra["canary"] = {"corrupted_trace_verdicts": [cv["verdict"], cv2["verdict"]],
                                "tampered_edges": "noticed"}
@@ -595,5 +597,5 @@ def main(rep: Report, replay: dict | None) -> None:
                               "events_judged": sum(v["judged"] for v in verdicts),
                               "rejected": sum(1 for v in verdicts if v["verdict"] != "ok")}
     if sample_walk:
-        rep.sample({"walk": [{k: v for k, v in e["op"].items() if k != "exp"} for e in sample_walk[:6]]})
+        rep.sample({"walk": [{k: v for k, v in e["op"].items() if k != "exp"} for e in sample_walk[:8]]})
     rep.sample({"history": [{k: e[k] for k in OP_KEYS + ("res", "val")} for e in recorded[0]["ev"][:6]]})
